@@ -26,7 +26,9 @@ RULE = (
     "rendered in matching environments with the same data. history cases: 2-6 environments (equal or different delimiters; strict/warn/lax; feature "
     "flags; extra tags; a filter and the echo tag re-registered under their built-in names with environment-specific behaviour) created up front or "
     "lazily and used for 4-30 renders in interleaved order (thorough: also > 128 live delimiter sets to force memo eviction). Judged: every render's "
-    "outcome equals the outcome of the same environment's steps run alone in a fresh process. Non-trivial = rewrite with >= 1 tag and non-empty "
+    "outcome equals the outcome of the same environment's steps run alone in a fresh process. implicit cases: 2-12 templates made with the package-level "
+    "liquid.Template(source, **options) whose option sets differ in one or two of autoescape / undefined / tolerance / strict_filters / template_comments / extra / "
+    "delimiters (12 sets exceed the implicit-environment memo), all created before any is rendered or interleaved, judged the same way. Non-trivial = rewrite with >= 1 tag and non-empty "
     "output, or history with >= 2 environments; distinct by content."
 )
 REQUIRED = [
@@ -37,7 +39,7 @@ REQUIRED = [
     ("liquid/environment.py", "Environment.tokenizer"),
 ]
 MIN_COUNTERS = {"rewrites_judged": 500, "rewrites_with_template_comment": 50, "rewrites_with_liquid_tag": 50, "history_pairs": 20, "history_renders_compared": 200,
-                "lexer_memo_hits_in_children": 20, "parser_memo_hits_in_children": 20}
+                "lexer_memo_hits_in_children": 20, "parser_memo_hits_in_children": 20, "implicit_history_pairs": 10, "implicit_renders_compared": 40}
 
 SENT = ["", "", "", "", "", ""]
 DELIM_ALPHABET = list("!#$%&*+/:;<=>?@[]^_`{|}~().\\") + list("QZXJW")
@@ -223,7 +225,7 @@ def job_history(payload: dict[str, Any]) -> dict[str, Any]:
         if i not in envs:
             envs[i] = _build_env(cfgs[i])
         o = drv.parse_and_render(envs[i], source, V.dec(data), use_async=use_async)
-        out.append(list(o.key()) if o.ok else ["err", o.err_class, str(o.exc).split("\n")[0][:80]])
+        out.append(list(o.key()) if o.ok else ["err", o.err_class, drv.safe_str(o.exc).split("\n")[0][:80]])
     from liquid import lex, parser
 
     return {"results": out, "lexer_hits": lex.get_lexer.cache_info().hits, "parser_hits": parser.get_parser.cache_info().hits,
@@ -269,9 +271,84 @@ def judge_history(ctx: core.Ctx, case: dict[str, Any]) -> None:
             ctx.samples.append(case)
 
 
+# ------------------------------------------------------------------------------ part C: implicit environments (liquid.Template)
+
+def _template_kwargs(o: dict[str, Any]) -> dict[str, Any]:
+    from liquid import Mode
+    from liquid import undefined as U
+
+    kw: dict[str, Any] = {}
+    for k in ("extra", "strict_filters", "autoescape", "template_comments"):
+        if k in o:
+            kw[k] = o[k]
+    if "mode" in o:
+        kw["tolerance"] = {"strict": Mode.STRICT, "lax": Mode.LAX, "warn": Mode.WARN}[o["mode"]]
+    if "undefined" in o:
+        kw["undefined"] = {"default": U.Undefined, "strict": U.StrictUndefined, "falsy_strict": U.FalsyStrictUndefined}[o["undefined"]]
+    if "delims" in o:
+        d = o["delims"]
+        kw.update(tag_start_string=d[0], tag_end_string=d[1], statement_start_string=d[2], statement_end_string=d[3])
+    return kw
+
+
+def job_implicit(payload: dict[str, Any]) -> dict[str, Any]:
+    """Templates made with the package-level liquid.Template(source, **options): each set of options gets a memoised implicit environment."""
+    import warnings
+
+    import liquid
+
+    tpls: dict[int, Any] = {}
+    out: dict[str, Any] = {}
+    warnings.simplefilter("ignore")
+    for step in payload["steps"]:
+        if step[0] == "create":
+            _, i, source, opts = step
+            o = drv.call(liquid.Template, source, **_template_kwargs(opts))
+            tpls[i] = o
+        else:
+            _, i, data, key = step
+            t = tpls.get(i)
+            if t is None or not t.ok:
+                out[key] = ["create-failed", None if t is None else t.err_class]
+                continue
+            r = drv.render(t.value, V.dec(data))
+            out[key] = list(r.key()) if r.ok else ["err", r.err_class]
+    return {"results": out, "implicit_env_hits": liquid.environment.get_implicit_environment.cache_info().hits,
+            "implicit_env_size": liquid.environment.get_implicit_environment.cache_info().currsize}
+
+
+def judge_implicit(ctx: core.Ctx, case: dict[str, Any]) -> None:
+    together = zygote.run("harness.checks.c11", "job_implicit", {"steps": case["steps"]}, watchdog_s=120)
+    ctx.count("implicit_history_pairs")
+    ctx.count("implicit_env_memo_hits_in_children", together["implicit_env_hits"])
+    ctx.observe("max_live_implicit_envs", together["implicit_env_size"])
+    ctx.evaluations += 1
+    idxs = sorted({s[1] for s in case["steps"]})
+    for i in idxs:
+        own = [s for s in case["steps"] if s[1] == i]
+        alone = zygote.run("harness.checks.c11", "job_implicit", {"steps": own}, watchdog_s=120)
+        for key, r in alone["results"].items():
+            ctx.count("implicit_renders_compared")
+            if together["results"].get(key) != r:
+                create = next(s for s in own if s[0] == "create")
+                others = [s[3] for s in case["steps"] if s[0] == "create" and s[1] != i]
+                diff = sorted({k for o in others for k in set(o) | set(create[3]) if o.get(k) != create[3].get(k)})
+                ctx.violation(
+                    "implicit-environment-not-independent:" + ("+".join(diff[:3]) or "same-options"),
+                    f"liquid.Template({create[2]!r:.120}, **{create[3]}) renders to {r} when it is the only template of the process but to {together['results'].get(key)} when templates with the "
+                    f"options {others!r:.300} are also created in the process (order of steps: {[(s[0], s[1]) for s in case['steps']]})",
+                )
+                return
+    h = core.stable_hash(case)
+    if len(idxs) >= 2 and h not in ctx.nontrivial_hashes:
+        ctx.nontrivial_hashes.add(h)
+
+
 def judge(ctx: core.Ctx, case: dict[str, Any]) -> None:
     if case["kind"] == "rewrite":
         judge_rewrite(ctx, case)
+    elif case["kind"] == "implicit":
+        judge_implicit(ctx, case)
     else:
         judge_history(ctx, case)
 
@@ -354,10 +431,52 @@ def gen_history(rng, thorough: bool) -> dict[str, Any]:
     return {"kind": "history", "envs": envs, "steps": steps, "create_up_front": rng.random() < 0.5}
 
 
+IMPLICIT_SOURCES = [
+    ("{{ x }}|{{ nosuch }}|{% if nosuch %}y{% endif %}", {"x": "<b>&"}), ("{{ x | upcase }}{% # c %}", {"x": "a<"}), ("{{ x | nosuchfilter }}", {"x": 1}), ("{% nosuchtag %}after{{ x }}", {"x": 2}),
+    ("{# hidden #}shown{{ x }}", {"x": "'q'"}), ("{% with v: x %}{{ v }}{% endwith %}", {"x": "w"}), ("{{ xs | join: '<' }}{{ xs.first.nope }}", {"xs": ["<", ">"]}),
+]
+
+
+def gen_implicit(rng) -> dict[str, Any]:
+    """liquid.Template() with several option sets that differ in one or two options; all templates are created before any is rendered (or not)."""
+    n = rng.choice([2, 2, 3, 4, 12])
+    base = {"autoescape": rng.random() < 0.5, "undefined": rng.choice(["default", "strict"]), "mode": rng.choice(["strict", "lax"]), "strict_filters": rng.random() < 0.7}
+    creates, renders = [], []
+    for i in range(n):
+        o = dict(base)
+        for k in rng.sample(["autoescape", "undefined", "mode", "strict_filters", "template_comments", "extra", "delims"], rng.choice([1, 1, 2])):
+            if k in ("autoescape", "strict_filters", "template_comments", "extra"):
+                o[k] = not o.get(k, False)
+            elif k == "undefined":
+                o[k] = "strict" if o.get(k) != "strict" else "default"
+            elif k == "mode":
+                o[k] = "lax" if o.get(k) != "lax" else "strict"
+            else:
+                o[k] = ["{%", "%}", "{{", "}}"] if i % 2 else ["<%", "%>", "<<", ">>"]
+        src, data = rng.choice(IMPLICIT_SOURCES)
+        if o.get("delims") and o["delims"][0] == "<%":
+            src = src.replace("{%", "<%").replace("%}", "%>").replace("{{", "<<").replace("}}", ">>")
+        creates.append(["create", i, src, o])
+        for r in range(rng.choice([1, 2])):
+            renders.append(["render", i, V.enc(data), f"{i}.{r}"])
+    if rng.random() < 0.6:
+        steps = creates + renders  # every template exists before the first render
+    else:
+        steps = []
+        for c in creates:
+            steps.append(c)
+            steps += [r for r in renders if r[1] == c[1]][:1]
+        steps += [r for r in renders if r not in steps]
+    return {"kind": "implicit", "steps": steps}
+
+
 def cases(ctx: core.Ctx):
     rng = ctx.rng("cases")
     n = ctx.budget(2200, 250_000)
     for i in range(n):
+        if i % 40 == 20:
+            yield gen_implicit(rng)
+            continue
         if i % 40 == 0:
             yield gen_history(rng, ctx.tier == "thorough")
         else:
